@@ -3,105 +3,295 @@ import AsynqModel.Proofs.Threads
 /-!
 # C16  Computations on different threads never interfere
 
-What is proved here (for the model `AsynqModel.Threads`, for ALL programs, ALL thread counts and ALL schedules):
-if every operation of a thread reads and writes only that thread's slot of the global state (`stepOf`), then the
-final local state and the whole list of (operation, observation) records of every thread under any interleaving are
-those of running its operations alone.  The `_generic` theorems hold for an arbitrary local step function; the others
-instantiate them with `localStep`, the state machine written after scheduler.py / batching.py / profiler.py /
-tools.py (deduplicate) / asynq_to_async.py.
+The model (`AsynqModel.Threads`, Lib/Threads.lean) is ONE global state for all threads - the thread-indexed carriers
+(`locals`), the one process-wide deduplicate dict whose keys carry a thread component (`tasks`), and objects that are
+shared by design (`sh`: a scoped value, an alru cache) - and ONE global step `gStep kg perf t op`.  How a thread
+addresses the carriers and what it puts into a deduplicate key is the parameter `kg : Keying`.
 
-What is NOT proved (it cannot be, a theorem does not exhibit OS interleavings or read Python): that the Python
-functions have the shape `stepOf`.  That locality claim is tied to the code by the check's lock-step histories,
-write-in-A/observe-in-B probes, repeated free-running concurrent runs and the AST inventory.
+What is proved:
+* the SHARING STRUCTURE of `gStep`: for an operation that touches no shared-by-design object, the step of thread `t`
+  commutes with the abstraction `abs kg t` to `t`'s view (`C16_gstep_simulates_local`, any keying), and if the keying
+  separates the threads it leaves the view of every other thread unchanged (`C16_gstep_frames_others`, ALL operations);
+* from these two facts and nothing else: non-interference under EVERY schedule for fixed operation lists
+  (`C16_noninterference`, `C16_noninterference_prefix`) and for ADAPTIVE computations - the next operation is an
+  arbitrary function of what the thread itself has observed so far, so results, context events and flush choices are
+  not assumed equal between runs (`C16_adaptive_noninterference`, `C16_adaptive_schedule_independent`);
+* that the separation is NECESSARY: with the thread missing from the deduplicate key, or with thread-local holders
+  turned into module state, non-interference is refuted (`C16_no_thread_in_key_counterexample`,
+  `C16_module_state_counterexample`) - so the theorems above are about this model's keying, not about any step function;
+* the restriction to computations that do not touch shared-by-design objects is necessary
+  (`C16_shared_object_counterexample`) and concerns only the thread's OWN operations: other threads may use them freely;
+* the Boolean observer `spec` that the check evaluates on the records of the real implementation accepts every run
+  of the model (`C16_spec_holds`).
+
+What is NOT proved (a theorem does not exhibit OS interleavings or read Python): that the Python functions behave
+like `gStep Keying.real`.  That is tied to the code by the check's lock-step histories (every observation compared
+with the model under the same schedule), write-in-A/observe-in-B probes, repeated free-running concurrent runs and
+the AST inventory.
 -/
 namespace AsynqModel.Threads
 
-/-- frame property, any step function: an operation of thread `t` leaves every other thread's slot untouched, and
-    what it observes is a function of `t`'s own slot only -/
-theorem C16_frame_generic {σ ω ο : Type} (step : σ → ω → σ × ο) (g g' : ThreadId → σ) (t : ThreadId) (op : ω) :
-    (∀ u, u ≠ t → (stepOf step t op g).1 u = g u) ∧
-    (g t = g' t → (stepOf step t op g).2 = (stepOf step t op g').2 ∧
-                  (stepOf step t op g).1 t = (stepOf step t op g').1 t) := by
-  refine ⟨fun u h => update_other _ _ _ _ h, fun h => ?_⟩
-  simp [stepOf, update_same, h]
+/-! ## the sharing structure of the global step -/
 
-/-- non-interference, any step function, any initial global state, ANY schedule: thread `t` ends in the state and
-    has made exactly the observations of running its own operations alone -/
-theorem C16_noninterference_generic {σ ω ο : Type} (step : σ → ω → σ × ο) (g : ThreadId → σ)
-    (sch : List (ThreadId × ω)) (t : ThreadId) :
-    (runInterleaved step g sch).1 t = (runAlone step (g t) (opsOf t sch)).1 ∧
-    proj t (runInterleaved step g sch).2 = (runAlone step (g t) (opsOf t sch)).2 :=
-  inter_eq_alone step sch g t
+/-- the library's keying separates the threads (CPython: one threading.local slot per thread, distinct Thread objects) -/
+theorem C16_real_separates : Keying.real.Separates := ⟨fun _ _ h => h, fun _ _ h => h⟩
 
-/-- a thread never observes another thread's activity, any step function: after two arbitrary schedules in which
-    thread `t` itself did the same things, the next operation of `t` observes the same and leaves `t` in the same state,
-    whatever the other threads did (their tasks, batches, active task, profiler buffer, dedup entries, asyncio mode) -/
-theorem C16_never_observes_others_generic {σ ω ο : Type} (step : σ → ω → σ × ο) (g : ThreadId → σ)
-    (sch₁ sch₂ : List (ThreadId × ω)) (t : ThreadId) (op : ω) (h : opsOf t sch₁ = opsOf t sch₂) :
-    (stepOf step t op (runInterleaved step g sch₁).1).2 = (stepOf step t op (runInterleaved step g sch₂).1).2 ∧
-    (stepOf step t op (runInterleaved step g sch₁).1).1 t = (stepOf step t op (runInterleaved step g sch₂).1).1 t := by
-  apply (C16_frame_generic step _ _ t op).2
-  rw [(inter_eq_alone step sch₁ g t).1, (inter_eq_alone step sch₂ g t).1, h]
+/-- **simulation** (any keying, any global state): an operation of thread `t` that touches no shared-by-design object
+    observes what `localStep` observes on `t`'s view (its carriers and its slice of the one deduplicate dict) and
+    changes `t`'s view like `localStep` - it reads nothing else of the global state -/
+theorem C16_gstep_simulates_local (kg : Keying) (perf : Bool) (t : ThreadId) (op : Op) (g : GState)
+    (h : op.isShared = false) :
+    localStep perf (abs kg t g) op = (abs kg t (gStep kg perf t op g).1, (gStep kg perf t op g).2) :=
+  gStep_commutes kg perf t op g h
 
-/-- **C16 for the model of asynq's per-thread state**: for every setting of COLLECT_PERF_STATS, every family of
-    per-thread operation lists and every schedule that interleaves them, each thread's final local state
-    (scheduler, debug-batch table, profiler, dedup scope, asyncio mode) and its records equal those of running alone -/
-theorem C16_noninterference (perf : Bool) (progs : ThreadId → List Op) (sch : List (ThreadId × Op))
-    (h : IsInterleaving sch progs) (t : ThreadId) :
-    (runInterleaved (localStep perf) Global.init sch).1 t = (runAlone (localStep perf) Local.init (progs t)).1 ∧
-    proj t (inter perf sch) = alone perf (progs t) := by
-  have := inter_eq_alone (localStep perf) sch Global.init t
-  rw [h t] at this
-  exact this
+/-- **frame** (separating keying, ALL operations, also those on shared objects): an operation of thread `t` leaves the
+    view of every other thread - scheduler, active task, debug-batch table, profiler buffer and counter, asyncio mode,
+    its entries of the deduplicate dict - exactly as it was -/
+theorem C16_gstep_frames_others (kg : Keying) (hs : kg.Separates) (perf : Bool) (t u : ThreadId) (op : Op)
+    (g : GState) (h : u ≠ t) : abs kg u (gStep kg perf t op g).1 = abs kg u g :=
+  gStep_frame kg hs perf t u op g h
 
-/-- the outcome of a thread does not depend on the schedule: any two interleavings of the same programs agree -/
-theorem C16_schedule_independent (perf : Bool) (progs : ThreadId → List Op) (sch₁ sch₂ : List (ThreadId × Op))
-    (h₁ : IsInterleaving sch₁ progs) (h₂ : IsInterleaving sch₂ progs) (t : ThreadId) :
-    (runInterleaved (localStep perf) Global.init sch₁).1 t = (runInterleaved (localStep perf) Global.init sch₂).1 t ∧
-    proj t (inter perf sch₁) = proj t (inter perf sch₂) := by
-  have a := C16_noninterference perf progs sch₁ h₁ t
-  have b := C16_noninterference perf progs sch₂ h₂ t
+/-- a thread never observes another thread's activity: in two ARBITRARY global states in which thread `t` has the same
+    view, the next operation of `t` observes the same and leaves `t` with the same view - whatever tasks, batches,
+    active task, profiler entries, deduplicate entries, asyncio mode the other threads have in the two states -/
+theorem C16_never_observes_others (kg : Keying) (perf : Bool) (t : ThreadId) (op : Op) (g₁ g₂ : GState)
+    (hop : op.isShared = false) (h : abs kg t g₁ = abs kg t g₂) :
+    (gStep kg perf t op g₁).2 = (gStep kg perf t op g₂).2 ∧
+    abs kg t (gStep kg perf t op g₁).1 = abs kg t (gStep kg perf t op g₂).1 := by
+  have a := gStep_commutes kg perf t op g₁ hop
+  have b := gStep_commutes kg perf t op g₂ hop
+  rw [h] at a
+  have := a.symm.trans b
+  exact ⟨(Prod.mk.inj this).2, (Prod.mk.inj this).1⟩
+
+theorem abs_init (kg : Keying) (t : ThreadId) : abs kg t GState.init = Local.init := rfl
+
+/-! ## non-interference, fixed operation lists -/
+
+/-- **C16, all schedules**: the keying separates the threads; `sch` is ANY schedule of ANY operations of ANY number of
+    threads (the other threads may also use shared-by-design objects); thread `t`'s own operations touch no
+    shared-by-design object.  Then `t` ends with the view, and has made exactly the records, of the run in which only
+    `t` acts (`only t sch`) - which are those of the reference semantics `localStep` from the initial state. -/
+theorem C16_noninterference (kg : Keying) (hs : kg.Separates) (perf : Bool) (sch : List (ThreadId × Op)) (t : ThreadId)
+    (hown : ∀ op ∈ opsOf t sch, op.isShared = false) :
+    (abs kg t (gRun kg perf sch).1 = abs kg t (gRun kg perf (only t sch)).1 ∧
+     proj t (gRun kg perf sch).2 = proj t (gRun kg perf (only t sch)).2) ∧
+    (abs kg t (gRun kg perf sch).1 = (runAlone (localStep perf) Local.init (opsOf t sch)).1 ∧
+     proj t (gRun kg perf sch).2 = alone perf (opsOf t sch)) := by
+  have hc : ∀ t op g, (!op.isShared) = true →
+      localStep perf (abs kg t g) op = (abs kg t (gStep kg perf t op g).1, (gStep kg perf t op g).2) :=
+    fun t op g h => gStep_commutes kg perf t op g (by simpa using h)
+  have hf := fun t u op g => gStep_frame kg hs perf t u op g
+  have a := sim_run (gStep kg perf) (localStep perf) (abs kg) (fun op => !op.isShared) hc hf sch GState.init t
+    (fun op ho => by simp [hown op ho])
+  have b := sim_run (gStep kg perf) (localStep perf) (abs kg) (fun op => !op.isShared) hc hf (only t sch) GState.init t
+    (fun op ho => by rw [opsOf_only] at ho; simp [hown op ho])
+  rw [opsOf_only] at b
+  exact ⟨⟨a.1.trans b.1.symm, a.2.trans b.2.symm⟩, a⟩
+
+/-- without any assumption on `t`'s operations: up to its first operation on a shared-by-design object the records of
+    thread `t` are those of the run in which only `t` acts -/
+theorem C16_noninterference_prefix (kg : Keying) (hs : kg.Separates) (perf : Bool) (sch : List (ThreadId × Op))
+    (t : ThreadId) :
+    ownPrefix (proj t (gRun kg perf sch).2) = ownPrefix (proj t (gRun kg perf (only t sch)).2) := by
+  have hc : ∀ t op g, (!op.isShared) = true →
+      localStep perf (abs kg t g) op = (abs kg t (gStep kg perf t op g).1, (gStep kg perf t op g).2) :=
+    fun t op g h => gStep_commutes kg perf t op g (by simpa using h)
+  have hf := fun t u op g => gStep_frame kg hs perf t u op g
+  have a := sim_run_prefix (gStep kg perf) (localStep perf) (abs kg) (fun op => !op.isShared) hc hf sch GState.init t
+  have b := sim_run_prefix (gStep kg perf) (localStep perf) (abs kg) (fun op => !op.isShared) hc hf (only t sch)
+    GState.init t
+  rw [opsOf_only] at b
+  exact a.trans b.symm
+
+/-- the outcome of a thread depends neither on the schedule nor on what the other threads do: two ARBITRARY schedules
+    (different threads, different operations of the others) in which `t` itself performs the same operations, none of
+    them on a shared-by-design object, give `t` the same view and the same records -/
+theorem C16_schedule_independent (kg : Keying) (hs : kg.Separates) (perf : Bool)
+    (sch₁ sch₂ : List (ThreadId × Op)) (t : ThreadId) (h : opsOf t sch₁ = opsOf t sch₂)
+    (hown : ∀ op ∈ opsOf t sch₁, op.isShared = false) :
+    abs kg t (gRun kg perf sch₁).1 = abs kg t (gRun kg perf sch₂).1 ∧
+    proj t (gRun kg perf sch₁).2 = proj t (gRun kg perf sch₂).2 := by
+  have a := (C16_noninterference kg hs perf sch₁ t hown).2
+  have b := (C16_noninterference kg hs perf sch₂ t (h ▸ hown)).2
+  rw [← h] at b
   exact ⟨a.1.trans b.1.symm, a.2.trans b.2.symm⟩
+
+/-- the statement for the library as written, in the functions the driver of the check evaluates (`inter` = the model's
+    concurrent run, `aloneOn` = the model's run of one thread while the others do nothing, `alone` = the reference
+    semantics): CORR compares the implementation with `inter` / `aloneOn`, and these agree per thread -/
+theorem C16_noninterference_library (perf : Bool) (sch : List (ThreadId × Op)) (t : ThreadId)
+    (hown : ∀ op ∈ opsOf t sch, op.isShared = false) :
+    proj t (inter perf sch) = aloneOn perf t (opsOf t sch) ∧ aloneOn perf t (opsOf t sch) = alone perf (opsOf t sch) := by
+  have a := C16_noninterference Keying.real C16_real_separates perf sch t hown
+  exact ⟨a.1.2, a.1.2.symm.trans a.2.2⟩
+
+/-! ## non-interference, adaptive computations -/
+
+/-- a computation that never touches a shared-by-design object -/
+def Strategy.Own (s : Strategy) : Prop := ∀ h op, s h = some op → op.isShared = false
+
+/-- **C16 for arbitrary computations**: every thread `u` runs an ARBITRARY computation `ss u` (its next operation is any
+    function of the records it has made so far - so its results, its context events, the batch its scheduler flushes
+    next are not inputs that two runs are assumed to share); `turns` is ANY list saying which thread moves at each
+    instant.  If the keying separates the threads and `t`'s computation never touches a shared-by-design object, then
+    the records of `t` (operations AND observations) and its final view are those of `t`'s computation run alone for
+    as many turns as `t` got. -/
+theorem C16_adaptive_noninterference (kg : Keying) (hs : kg.Separates) (perf : Bool) (ss : ThreadId → Strategy)
+    (t : ThreadId) (hown : (ss t).Own) (turns : List ThreadId) :
+    abs kg t (stratGlobal (gStep kg perf) ss turns GState.init []).1 =
+      (stratAlone (localStep perf) (ss t) (turns.count t) Local.init []).1 ∧
+    proj t (stratGlobal (gStep kg perf) ss turns GState.init []).2 =
+      (stratAlone (localStep perf) (ss t) (turns.count t) Local.init []).2 := by
+  have hc : ∀ t op g, (!op.isShared) = true →
+      localStep perf (abs kg t g) op = (abs kg t (gStep kg perf t op g).1, (gStep kg perf t op g).2) :=
+    fun t op g h => gStep_commutes kg perf t op g (by simpa using h)
+  have hf := fun t u op g => gStep_frame kg hs perf t u op g
+  exact sim_strat (gStep kg perf) (localStep perf) (abs kg) (fun op => !op.isShared) hc hf ss t
+    (fun h op e => by simp [hown h op e]) turns GState.init []
+
+/-- ... in particular they depend neither on WHEN `t` got its turns nor on what the other threads compute -/
+theorem C16_adaptive_schedule_independent (kg : Keying) (hs : kg.Separates) (perf : Bool) (ss ss' : ThreadId → Strategy)
+    (t : ThreadId) (hsame : ss t = ss' t) (hown : (ss t).Own) (turns turns' : List ThreadId)
+    (hcount : turns.count t = turns'.count t) :
+    proj t (stratGlobal (gStep kg perf) ss turns GState.init []).2 =
+    proj t (stratGlobal (gStep kg perf) ss' turns' GState.init []).2 := by
+  have a := (C16_adaptive_noninterference kg hs perf ss t hown turns).2
+  have b := (C16_adaptive_noninterference kg hs perf ss' t (hsame ▸ hown) turns').2
+  rw [← hsame, ← hcount] at b
+  exact a.trans b.symm
+
+/-! ## the separation is necessary: the same global step with a keying that does not separate the threads -/
+
+/-- two threads call the same deduplicated function with the same key, nothing else -/
+def dedupClash : List (ThreadId × Op) := [(0, .dedupCall 0 7), (1, .dedupCall 0 7)]
+
+/-- thread key dropped from `cache_key` (one unkeyed table): thread 1 is handed thread 0's in-flight task
+    (`dedup 1 0 _` = "the stored task, token 0") where alone it creates its own (`dedup 0 0 _`) -/
+theorem C16_no_thread_in_key_counterexample :
+    (∀ op ∈ opsOf 1 dedupClash, op.isShared = false) ∧
+    proj 1 (gRun Keying.noThreadInKey false dedupClash).2 = [(.dedupCall 0 7, .dedup 1 0 0)] ∧
+    proj 1 (gRun Keying.noThreadInKey false (only 1 dedupClash)).2 = [(.dedupCall 0 7, .dedup 0 0 0)] ∧
+    abs Keying.noThreadInKey 1 (gStep Keying.noThreadInKey false 0 (.dedupCall 0 7) GState.init).1 ≠
+      abs Keying.noThreadInKey 1 GState.init := by
+  decide
+
+/-- one thread is inside a task and has made a batch item, the other looks -/
+def holderClash : List (ThreadId × Op) := [(0, .newTask), (0, .taskStart 0), (0, .mkItem 1 10), (1, .getActive), (1, .mkItem 1 20)]
+
+/-- thread-local holders replaced by module state (one slot for all threads): thread 1 sees thread 0's active task
+    and finds thread 0's item in its batch -/
+theorem C16_module_state_counterexample :
+    (∀ op ∈ opsOf 1 holderClash, op.isShared = false) ∧
+    proj 1 (gRun Keying.moduleState false holderClash).2 =
+      [(.getActive, .active (some 0)), (.mkItem 1 20, .item 0 1 0)] ∧
+    proj 1 (gRun Keying.moduleState false (only 1 holderClash)).2 =
+      [(.getActive, .active none), (.mkItem 1 20, .item 0 0 0)] := by
+  decide
+
+/-- with the library's keying both schedules are harmless (instances of `C16_noninterference`, computed) -/
+example : proj 1 (gRun Keying.real false dedupClash).2 = proj 1 (gRun Keying.real false (only 1 dedupClash)).2 ∧
+    proj 1 (gRun Keying.real false holderClash).2 = proj 1 (gRun Keying.real false (only 1 holderClash)).2 := by
+  decide
+
+/-! ## objects shared by design are outside the statement: the hypothesis on `t`'s own operations is necessary -/
+
+/-- thread 0 is inside `with V.override(5)`, thread 1 reads `V`; thread 0 fills the alru cache, thread 1 calls -/
+def sharedClash : List (ThreadId × Op) := [(0, .svEnter 5), (1, .svGet), (0, .svExit), (0, .lruCall 3), (1, .lruCall 3)]
+
+/-- the library as written (`Keying.real`): a thread that reads a scoped value / calls a cached function that another
+    thread uses too does NOT get the records of running alone (5 instead of 0; a cache hit instead of a miss) - while
+    a thread that does not touch such objects is unaffected by the two that do (`getActive`, `mkItem` of thread 2) -/
+theorem C16_shared_object_counterexample :
+    proj 1 (inter false sharedClash) = [(.svGet, .nat 5), (.lruCall 3, .cache true 31)] ∧
+    proj 1 (inter false (only 1 sharedClash)) = [(.svGet, .nat 0), (.lruCall 3, .cache false 31)] ∧
+    proj 2 (inter false (sharedClash ++ [(2, .getActive), (2, .mkItem 1 9)])) =
+      proj 2 (inter false [(2, .getActive), (2, .mkItem 1 9)]) := by
+  decide
+
+/-! ## the observer -/
 
 theorem firstDiff_self (l : List Rec) (i : Nat) : firstDiff l l i = none := by
   induction l generalizing i with
   | nil => rfl
   | cons x xs ih => simp [firstDiff, ih]
 
+theorem firstDiff_eq {a b : List Rec} (h : a = b) (i : Nat) : firstDiff a b i = none := h ▸ firstDiff_self a i
+
+theorem proj_mem {ρ : Type} (t : ThreadId) (recs : List (ThreadId × ρ)) (r : ρ) (h : r ∈ proj t recs) :
+    (t, r) ∈ recs := by
+  simp only [proj, List.mem_filterMap] at h
+  obtain ⟨p, hp, he⟩ := h
+  obtain ⟨u, x⟩ := p
+  by_cases hu : u = t
+  · simp [hu] at he; subst hu; subst he; exact hp
+  · simp [hu] at he
+
+theorem foreignIn_none (l : List Rec) (h : ∀ r ∈ l, r.2 ≠ Obs.foreign) : foreignIn l = none := by
+  simp only [foreignIn, Option.map_eq_none_iff, List.find?_eq_none]
+  intro r hr
+  simpa using h r hr
+
 /-- **C16 as the observer `spec`** - the same Boolean function the check evaluates on the records of the real
-    implementation: for any number of threads, programs and schedule the model's concurrent run is accepted
-    against the model's runs alone -/
-theorem C16_spec_holds (perf : Bool) (k : Nat) (progs : ThreadId → List Op) (sch : List (ThreadId × Op))
-    (h : IsInterleaving sch progs) :
-    spec k ((List.range k).map fun t => alone perf (progs t)) (inter perf sch) = true := by
+    implementation: for any separating keying (in particular the library's), any `k ≥ 1`, any schedule of threads
+    `< k` (any operations), the model's concurrent run is accepted against the model's runs of each thread alone -/
+theorem C16_spec_holds (kg : Keying) (hs : kg.Separates) (perf : Bool) (k : Nat) (hk : 0 < k)
+    (sch : List (ThreadId × Op)) (hthr : ∀ p ∈ sch, p.1 < k) :
+    spec k ((List.range k).map fun t => proj t (gRun kg perf (only t sch)).2) (gRun kg perf sch).2 = true := by
+  have hforeign : ∀ s : List (ThreadId × Op), ∀ r ∈ (gRun kg perf s).2, r.2.2 ≠ Obs.foreign :=
+    fun s => runGlobal_obs (gStep kg perf) (· ≠ Obs.foreign) (fun t op g => gStep_obs_ne_foreign kg perf t op g)
+      GState.init s
+  have h1 : ¬ (k = 0) := Nat.pos_iff_ne_zero.mp hk
+  have h2 : ¬ (((List.range k).map fun t => proj t (gRun kg perf (only t sch)).2).length ≠ k) := by simp
+  have h3 : ((gRun kg perf sch).2.any fun p => decide (k ≤ p.1)) = false := by
+    rw [List.any_eq_false]
+    intro p hp
+    have : p.1 ∈ (gRun kg perf sch).2.map (·.1) := List.mem_map_of_mem hp
+    rw [gRun, runGlobal_threads] at this
+    obtain ⟨q, hq, he⟩ := List.mem_map.mp this
+    have hlt : q.1 < k := hthr q hq
+    have heq : q.1 = p.1 := he
+    simp only [decide_eq_true_eq]
+    exact Nat.not_le_of_gt (heq ▸ hlt)
+  have h4 : foreignIn ((gRun kg perf sch).2.map (·.2)) = none := by
+    apply foreignIn_none
+    intro r hr
+    obtain ⟨p, hp, he⟩ := List.mem_map.mp hr
+    exact he ▸ hforeign sch p hp
+  have h5 : ((List.range k).map fun t => proj t (gRun kg perf (only t sch)).2).findSome? foreignIn = none := by
+    rw [List.findSome?_eq_none_iff]
+    intro l hl
+    obtain ⟨t, _, he⟩ := List.mem_map.mp hl
+    subst he
+    apply foreignIn_none
+    intro r hr
+    exact hforeign _ _ (proj_mem t _ r hr)
   have key : ∀ n, n ≤ k →
-      specFind ((List.range k).map fun t => alone perf (progs t)) (inter perf sch) n = none := by
+      specFind ((List.range k).map fun t => proj t (gRun kg perf (only t sch)).2) (gRun kg perf sch).2 n = none := by
     intro n
     induction n with
     | zero => intro _; rfl
     | succ n ih =>
       intro hn
       have hlt : n < k := hn
-      have hget : ((List.range k).map fun t => alone perf (progs t)).getD n [] = alone perf (progs n) := by
+      have hget : ((List.range k).map fun t => proj t (gRun kg perf (only t sch)).2).getD n [] =
+          proj n (gRun kg perf (only n sch)).2 := by
         simp [List.getD, hlt]
-      simp only [specFind, ih (Nat.le_of_succ_le hn), hget, (C16_noninterference perf progs sch h n).2,
-        firstDiff_self]
-  simp [spec, key k (Nat.le_refl k)]
+      simp only [specFind, ih (Nat.le_of_succ_le hn), hget,
+        firstDiff_eq (C16_noninterference_prefix kg hs perf sch n).symm]
+  simp only [spec, specCheck, h1, h2, h3, h4, h5, key k (Nat.le_refl k), if_false, Bool.false_eq_true, Option.isNone_none]
 
-/-- the process-wide dict `DeduplicateDecorator.tasks` keyed by (arguments, current_thread(), id(fn)) IS a family of
-    per-thread tables: what thread `t` looks up is in its slice; what `t` stores or removes changes its slice like
-    the local table operation and leaves the slice of every other thread as it was -/
-theorem C16_dedup_table_slices (t u : ThreadId) (f k v : Nat) (tbl : SharedTbl) :
-    alookup (k, t, f) tbl = alookup (f, k) (slice t tbl) ∧
-    slice t (aerase (k, t, f) tbl) = aerase (f, k) (slice t tbl) ∧
-    slice t (ainsert (k, t, f) v tbl) = ainsert (f, k) v (slice t tbl) ∧
-    (u ≠ t → slice u (aerase (k, t, f) tbl) = slice u tbl ∧ slice u (ainsert (k, t, f) v tbl) = slice u tbl) := by
-  refine ⟨slice_lookup t f k tbl, slice_erase_same t f k tbl, ?_, fun h => ⟨slice_erase_other t u f k tbl h, ?_⟩⟩
-  · simp [ainsert, slice, slice_erase_same]
-  · have : ¬ (t = u) := fun h' => h h'.symm
-    simp [ainsert, slice, this, slice_erase_other t u f k tbl h]
+/-- SPECM of the check: the observer on the model's own records, for the library's keying -/
+theorem C16_spec_holds_library (perf : Bool) (k : Nat) (hk : 0 < k) (sch : List (ThreadId × Op))
+    (hthr : ∀ p ∈ sch, p.1 < k) :
+    spec k ((List.range k).map fun t => aloneOn perf t (opsOf t sch)) (inter perf sch) = true :=
+  C16_spec_holds Keying.real C16_real_separates perf k hk sch hthr
 
-/-! ## non-vacuity -/
+/-- both hypotheses of `C16_spec_holds` are needed: no threads / a record of a thread that is not among the `k` -/
+example : spec 0 [] (inter false []) = false := by decide
+example : spec 1 [aloneOn false 0 []] (inter false [(1, .getActive)]) = false := by decide
+
+/-! ## non-vacuity and what the observer rejects -/
 
 /-- two threads use the same batch name, the same deduplicated function with the same key, the profiler and asyncio
     mode, interleaved step by step -/
@@ -124,27 +314,99 @@ example : proj 0 (inter true demoSchedule) =
      (.profIncr, .nat 3), (.mkItem 1 11, .item 1 0 4), (.getSched, .sched 1 true)] := by
   decide
 
-example : spec 2 [alone true (opsOf 0 demoSchedule), alone true (opsOf 1 demoSchedule)] (inter true demoSchedule) = true := by
+/-- the one dict really is shared in the model: after the demo both threads' entries sit in the same table, and each
+    thread's view holds only its own -/
+example : (gRun Keying.real true (demoSchedule.take 4)).1.tasks = [((7, 1, 0), 0), ((7, 0, 0), 0)] ∧
+    (abs Keying.real 0 (gRun Keying.real true (demoSchedule.take 4)).1).dedup = [((0, 7), 0)] := by
   decide
 
-/-- what a library whose state is NOT per thread would record: all operations act on one shared slot -/
-def sharedRun (perf : Bool) (sch : List (ThreadId × Op)) : List (ThreadId × Rec) :=
-  (sch.map (·.1)).zip (alone perf (sch.map (·.2)))
-
-/-- the observer is not trivially true: it rejects the records of such a library (thread 1 would find thread 0's item
-    in its batch), naming the component -/
-example : spec 2 [alone true (opsOf 0 demoSchedule), alone true (opsOf 1 demoSchedule)] (sharedRun true demoSchedule) = false := by
+/-- the run alone through the global model, the reference semantics, and the projection of the concurrent run agree -/
+example : aloneOn true 1 (opsOf 1 demoSchedule) = alone true (opsOf 1 demoSchedule) ∧
+    proj 1 (inter true demoSchedule) = alone true (opsOf 1 demoSchedule) := by
   decide
-example : specClause 2 [alone false [.mkItem 1 10], alone false [.mkItem 1 20]]
+
+example : spec 2 [aloneOn true 0 (opsOf 0 demoSchedule), aloneOn true 1 (opsOf 1 demoSchedule)] (inter true demoSchedule) = true := by
+  decide
+
+/-- instance of the frame theorem: thread 1 starts a task, thread 0's view does not move; instance of
+    `C16_never_observes_others`: after two different schedules in which thread 0 did the same, its flush sees the same -/
+example : abs Keying.real 0 (gStep Keying.real true 1 (.taskStart 5) (gRun Keying.real true (demoSchedule.take 4)).1).1 =
+    abs Keying.real 0 (gRun Keying.real true (demoSchedule.take 4)).1 := by
+  decide
+example : (gStep Keying.real true 0 (.directFlush 1)
+      (gRun Keying.real true [(0, .mkItem 1 10), (1, .mkItem 1 20), (1, .taskStart 5)]).1).2 = .flushed 0 [10] ∧
+    (gStep Keying.real true 0 (.directFlush 1) (gRun Keying.real true [(1, .profIncr), (0, .mkItem 1 10)]).1).2 = .flushed 0 [10] := by
+  decide
+
+/-- slices of the one dict -/
+example : slice 0 [((7, 0, 1), 100), ((7, 1, 1), 200), ((8, 0, 1), 300)] = [((1, 7), 100), ((1, 8), 300)] ∧
+    slice 1 (aerase (7, 0, 1) [((7, 0, 1), 100), ((7, 1, 1), 200)]) = [((1, 7), 200)] := by
+  decide
+
+/-- an adaptive computation: after seeing its own first item it makes as many more as the position it was told, then
+    flushes; run against a thread that floods the same batch name.  Instance of `C16_adaptive_noninterference`. -/
+def adaptive : Strategy := fun h =>
+  match h with
+  | [] => some (.mkItem 1 5)
+  | [(_, .item _ pos _)] => if pos = 0 then some (.directFlush 1) else some (.mkItem 1 6)
+  | [_, (.mkItem _ _, _)] => some (.directFlush 1)
+  | _ => none
+def flooder : Strategy := fun h => if h.length < 3 then some (.mkItem 1 77) else none
+
+example : proj 0 (stratGlobal (gStep Keying.real false) (fun t => if t = 0 then adaptive else flooder) [1, 0, 1, 0, 1, 0]
+      GState.init []).2 = [(.mkItem 1 5, .item 0 0 0), (.directFlush 1, .flushed 0 [5])] ∧
+    (stratAlone (localStep false) adaptive 3 Local.init []).2 = [(.mkItem 1 5, .item 0 0 0), (.directFlush 1, .flushed 0 [5])] := by
+  decide
+/-- with module state instead of thread-local holders the adaptive computation takes ANOTHER PATH (different operations) -/
+example : proj 0 (stratGlobal (gStep Keying.moduleState false) (fun t => if t = 0 then adaptive else flooder)
+      [1, 0, 1, 0, 1, 0] GState.init []).2 =
+    [(.mkItem 1 5, .item 0 1 0), (.mkItem 1 6, .item 0 3 0), (.directFlush 1, .flushed 0 [77, 5, 77, 6, 77])] := by
+  decide
+
+/-- what a library whose state is NOT per thread records (the same global step, module state) -/
+def sharedRun (perf : Bool) (sch : List (ThreadId × Op)) : List (ThreadId × Rec) := (gRun Keying.moduleState perf sch).2
+
+/-- the observer is not trivially true: it rejects the records of such a library, naming the component -/
+example : spec 2 [aloneOn true 0 (opsOf 0 demoSchedule), aloneOn true 1 (opsOf 1 demoSchedule)] (sharedRun true demoSchedule) = false := by
+  decide
+example : specClause 2 [aloneOn false 0 [.mkItem 1 10], aloneOn false 1 [.mkItem 1 20]]
     (sharedRun false [(0, .mkItem 1 10), (1, .mkItem 1 20)]) = "interference:debug-batch" := by
   decide
+example : specClause 2 [aloneOn false 0 [.dedupCall 0 7], aloneOn false 1 [.dedupCall 0 7]]
+    (gRun Keying.noThreadInKey false dedupClash).2 = "interference:deduplicate" := by
+  decide
 
-/-- the inventory comparison accepts exactly the carriers it knows and flags a thread-local turned global -/
-example : inventoryProblems (components ++ [("_debug", "options", "call:DebugOptions"), ("x", "TABLE", "const")]) = [] := by
+/-- the wrong observations listed by the audit (B5) are rejected: records of a thread that is not one of the `k`
+    threads; `k = 0`; a missing run alone; a thread that sees a foreign task both alone and concurrently -/
+example : specClause 2 [aloneOn true 0 [.mkItem 1 10], aloneOn true 1 [.mkItem 1 20]]
+    (inter true [(0, .mkItem 1 10), (1, .mkItem 1 20)] ++ [(7, (.getActive, .foreign)), (2, (.snap, .snap 5 5 (some 3)))])
+    = "record-of-unknown-thread" := by decide
+example : specClause 0 [] (sharedRun true demoSchedule) = "no-threads" := by decide
+example : specClause 3 [aloneOn true 0 [.mkItem 1 10]] (inter true [(0, .mkItem 1 10)]) = "alone-runs-missing" := by decide
+example : specClause 2 [[(.getActive, .foreign)], [(.getActive, .raised 1)]]
+    [(0, (.getActive, .foreign)), (1, (.getActive, .raised 1))] = "observes-foreign:scheduler" := by decide
+example : specClause 2 [[(.getActive, .foreign)], []] [(0, (.getActive, .active none))] = "observes-foreign-alone:scheduler" := by decide
+
+/-- a thread that touches a shared object is compared up to that operation only; one that does not is compared in full
+    even when the others do (the shape of `C16_noninterference`) -/
+example : spec 3 [aloneOn false 0 (opsOf 0 sharedClash), aloneOn false 1 (opsOf 1 sharedClash), aloneOn false 2 [.getActive]]
+    (inter false (sharedClash ++ [(2, .getActive)])) = true := by decide
+example : specClause 2 [aloneOn false 0 [.getActive, .svGet], aloneOn false 1 []]
+    [(0, (.getActive, .active (some 3))), (0, (.svGet, .nat 0))] = "interference:scheduler" := by decide
+
+/-- the inventory comparison accepts exactly the carriers it knows and flags a thread-local turned global, a carrier
+    nobody probes and a new closure cache -/
+def allProbed : List (String × String) := components.map fun c => (c.1, c.2.1)
+example : inventoryProblems (components ++ [("_debug", "options", "call:DebugOptions"), ("x", "TABLE", "const")]) allProbed = [] := by
   decide
 example : inventoryProblems ((components.erase ("asynq_to_async", "_asyncio_mode", "contextvar")) ++
-    [("asynq_to_async", "_asyncio_mode", "global")]) =
+    [("asynq_to_async", "_asyncio_mode", "global")]) allProbed =
     [(true, "asynq_to_async", "_asyncio_mode", "contextvar"), (false, "asynq_to_async", "_asyncio_mode", "global")] := by
+  decide
+example : inventoryProblems components (allProbed.erase ("profiler", "_state")) = [(true, "profiler", "_state", "probed")] := by
+  decide
+example : inventoryProblems (components ++ [("tools", "amemo:cache", "closure:dict"), ("profiler", "Stats.n", "classattr")]) allProbed =
+    [(false, "tools", "amemo:cache", "closure:dict"), (false, "profiler", "Stats.n", "classattr")] := by
   decide
 
 end AsynqModel.Threads
